@@ -58,6 +58,8 @@ M0(c) ==
     mustSignal |-> {},          \* steps with a cancel handler whose plugin was executing when their context ended
     sigSent  |-> {},            \* steps the cancel signal was enqueued for (or whose plugin had already finished)
     forced   |-> {},            \* steps whose connection was force closed while the plugin executed
+    itemsRunning |-> {},        \* <<foreach step, item index>> between acquire and release
+    par      |-> {},            \* <<foreach step, parallelism>> as provided
     evalFailed |-> FALSE,       \* some expression could not be evaluated at run time
     errKinds |-> {} ]
 
@@ -79,6 +81,36 @@ OnKick(mm, e) ==
       r  == Resolve(g1, InputNode, "R")
   IN  [mm EXCEPT !.g = r.g, !.h = [NoH EXCEPT !.active = TRUE, !.kind = "K", !.pre = mm.g.st], !.popped = {}]
 
+\* C13: what a loop step reports, against what its item runs returned (Case.subs[step] = per item, in index order)
+SubsOf(s) == IF s \in DOMAIN Case.subs THEN Case.subs[s] ELSE <<>>
+ForeachRules(s, e) ==
+  LET subs   == SubsOf(s)
+      obs    == Leaves(e.data)
+      good   == {k \in DOMAIN subs : subs[k].ok /\ subs[k].id = "success"}
+      bad    == DOMAIN subs \ good
+      idx(k) == ToString(subs[k].i)
+      wantOk == IF subs = <<>> THEN {<<<<"data">>, "[]">>}
+                ELSE UNION {{<<<<"data", idx(k)>> \o lf.p, lf.v>> : lf \in Range(subs[k].leaves)} : k \in DOMAIN subs}
+      errIdx == {o[1][2] : o \in {x \in obs : Len(x[1]) >= 2 /\ x[1][1] = "errors"}}
+      datIdx == {o[1][2] : o \in {x \in obs : Len(x[1]) >= 2 /\ x[1][1] = "data"}}
+  IN
+  IF e.prev = "outputs" THEN
+       (IF bad # {} THEN {<<"C13", "success-reported-although-an-item-failed-or-ended-in-a-non-success-output", s>>} ELSE {})
+       \cup (IF bad = {} /\ obs # wantOk THEN {<<"C13", "success-data-is-not-the-item-results-in-item-order", s>>} ELSE {})
+  ELSE (IF bad = {} THEN {<<"C13", "failure-reported-although-every-item-succeeded", s>>} ELSE {})
+       \cup (IF errIdx # {idx(k) : k \in bad} THEN {<<"C13", "failure-report-does-not-identify-exactly-the-failing-items", s>>} ELSE {})
+       \cup (IF datIdx # {idx(k) : k \in good} THEN {<<"C13", "failure-report-does-not-carry-the-results-of-the-other-items", s>>} ELSE {})
+
+OnFItem(mm, e) ==
+  CASE e.op = "acquire" ->
+         LET r2 == mm.itemsRunning \cup {<<e.step, e.i>>}
+             n  == Cardinality({x \in r2 : x[1] = e.step})
+             p  == {x[2] : x \in {y \in mm.par : y[1] = e.step}}
+         IN  VS([mm EXCEPT !.itemsRunning = r2],
+                IF p # {} /\ n > (CHOOSE x \in p : TRUE) THEN {<<"C13", "more-items-running-than-parallelism-allows", e.step>>} ELSE {})
+    [] e.op = "release" -> [mm EXCEPT !.itemsRunning = @ \ {<<e.step, e.i>>}]
+    [] OTHER -> mm
+
 OnHEnterS(mm, e) ==
   LET s == e.step
       base == [mm EXCEPT !.h = [active |-> TRUE, kind |-> e.hc, step |-> s, prev |-> e.prev, out |-> e.out, pre |-> mm.g.st],
@@ -96,12 +128,14 @@ OnHEnterS(mm, e) ==
       c6 == IF s \in mm.completed THEN {<<"C12", "stage-change-after-completion", s>>} ELSE {}
       c7 == IF s \in mm.closedRet THEN {<<"C12", "notification-after-close-returned", s>>} ELSE {}
       c8 == IF e.out # "nil" /\ e.conforms = "n" THEN {<<"C08", "step-output-does-not-match-declared-schema", s \o "." \o e.prev \o "." \o e.out>>} ELSE {}
+      c9 == IF known /\ KindOf(WF, s) = "foreach" /\ e.out # "nil" /\ e.prev \in {"outputs", "failed"}
+              THEN ForeachRules(s, e) ELSE {}
       node == StageOutNode(s, e.prev, e.out)
       d1 == IF e.out # "nil" THEN mm.data \cup {<<node, x.p, x.v>> : x \in Range(e.data)} ELSE mm.data
   IN  VS([base EXCEPT !.fin = @ \cup {<<s, e.prev>>},
                       !.completed = IF e.hc = "CO" THEN @ \cup {s} ELSE @,
                       !.data = d1],
-         c1 \cup c2 \cup c3 \cup c4 \cup c5 \cup c6 \cup c7 \cup c8)
+         c1 \cup c2 \cup c3 \cup c4 \cup c5 \cup c6 \cup c7 \cup c8 \cup c9)
 
 OnHEnterF(mm, e) ==
   LET s == e.step
@@ -181,7 +215,8 @@ OnSProv(mm, e) ==
   IF ~e.ok THEN mm
   ELSE IF e.stage = "cancelled"
     THEN [mm EXCEPT !.stopped = IF e.step \in mm.spawned THEN @ ELSE @ \cup {e.step}]
-    ELSE [mm EXCEPT !.slots = @ \cup {<<e.step, e.stage>>}]
+    ELSE [mm EXCEPT !.slots = @ \cup {<<e.step, e.stage>>},
+                    !.par = IF e.stage = "execute" THEN @ \cup {<<e.step, e.par>>} ELSE @]
 
 OnSSlot(mm, e) ==
   IF e.op = "take" THEN [mm EXCEPT !.slots = @ \ {<<e.step, e.slot>>}] ELSE mm
@@ -242,6 +277,7 @@ Dispatch(mm, e) ==
     [] e.ev = "XExecStart"-> OnXExecStart(mm, e)
     [] e.ev = "XExecEnd"  -> [mm EXCEPT !.plugLive = @ \ {e.step}]
     [] e.ev = "XCallerCancel" -> [mm EXCEPT !.cancelled = TRUE]
+    [] e.ev = "FItem"     -> OnFItem(mm, e)
     [] e.ev = "SRunCtx"   -> IF e.handler /\ e.step \in mm.plugLive THEN [mm EXCEPT !.mustSignal = @ \cup {e.step}] ELSE mm
     [] e.ev = "SSig"      -> [mm EXCEPT !.sigSent = @ \cup {e.step}]
     [] e.ev = "Return"    -> OnReturn(mm, e)
